@@ -259,6 +259,37 @@ Definition kernel_expired (st : state) (tidx : Z) : state :=
   mkS (updf (s_heaps st) tidx (set_np (s_heaps st tidx) true)) (updf (s_harmed st) tidx false)
       (updf (s_ktimer st) tidx (-1)) true (s_timers st).
 
+(* ---- _dispatch_event_loop_drain_timers (event.c:1209) for the DISPATCH_TIMER_COUNT = 3 heaps.  nows = the clock
+   cache of the call: one reading per clock, constant during the call.  One pass = run every heap, clear the dirty
+   bits, program every heap that needs it; repeated while a pass leaves the dirty bits set.  fuel bounds the number
+   of passes (the C loop has no bound; the boolean tells whether it was left through `while (dirty)` being false) *)
+Definition kcall := (Z * Z * Z * Z)%type.
+Definition run_all (st : state) (nows : Z -> Z) : state * list fire * bool :=
+  let '(st, e0, f0) := timers_run st 0 (nows 0) in
+  let '(st, e1, f1) := timers_run st 1 (nows 1) in
+  let '(st, e2, f2) := timers_run st 2 (nows 2) in
+  (st, e0 ++ e1 ++ e2, f0 && f1 && f2).
+Definition program_all (st : state) (nows : Z -> Z) : state * list kcall :=
+  let '(st, c0) := program_if_needed st 0 (nows 0) in
+  let '(st, c1) := program_if_needed st 1 (nows 1) in
+  let '(st, c2) := program_if_needed st 2 (nows 2) in
+  (st, c0 ++ c1 ++ c2).
+Definition drain_pass (st : state) (nows : Z -> Z) : state * list fire * list kcall * bool :=
+  let '(st, ev, fin) := run_all st nows in
+  let st := set_dirty st false in
+  let '(st, calls) := program_all st nows in
+  (st, ev, calls, fin).
+Fixpoint drain (fuel : nat) (st : state) (nows : Z -> Z) (ev : list fire) (calls : list kcall)
+  : state * list fire * list kcall * bool :=
+  match fuel with
+  | O => (st, ev, calls, false)
+  | S fuel' =>
+    let '(st', e, c, fin) := drain_pass st nows in
+    if negb fin then (st', ev ++ e, calls ++ c, false)
+    else if s_dirty st' then drain fuel' st' nows (ev ++ e) (calls ++ c)
+    else (st', ev ++ e, calls ++ c, true)
+  end.
+
 (* ---- timer branch of _dispatch_source_latch_and_call (source.c:529-546) with _dispatch_source_timer_data:
    returns the value dispatch_source_get_data reports in the handler *)
 Definition latch (st : state) (t now : Z) : state * Z :=
@@ -277,9 +308,10 @@ Definition latch (st : state) (t now : Z) : state * Z :=
 Inductive top :=
 | TNew (t flags : Z) | TAfter (t tg dl : Z) | TCfg (t clock tg dl itv : Z) | TReg (t : Z) | TConfigure (t : Z)
 | TResume (t : Z) | TUnreg (t : Z) | TSusp (t b : Z) | TPend (t v : Z) | TLatch (t now : Z)
-| TRun (tidx now : Z) | TProg (tidx now : Z) | TObs.
+| TRun (tidx now : Z) | TProg (tidx now : Z) | TDrain (n0 n1 n2 : Z) | TObs.
 
 Definition obs_state (st : state) (n : Z) : list Z :=
+  b2z (s_dirty st) ::
   flat_map (fun i => let h := s_heaps st i in
                      [h_count h; b2z (h_np h); b2z (s_harmed st i); h_slot h 0; h_slot h 1]) (zrange DISPATCH_TIMER_COUNT)
   ++ flat_map (fun i => let t := i + 1 in let x := tm st t in
@@ -310,6 +342,11 @@ Definition tstep (n : Z) (st : state) (o : top) : state * list Z :=
   | TProg tidx now =>
     let '(st', calls) := program_if_needed st tidx now in
     (st', flat_map (fun '(k, i, tg, lw) => [k; i; tg; lw]) calls ++ [-1] ++ obs_state st' n)
+  | TDrain n0 n1 n2 =>
+    let nows := fun c => if c =? 0 then n0 else if c =? 1 then n1 else n2 in
+    let '(st', ev, calls, fin) := drain 16 st nows [] [] in
+    (st', b2z fin :: flat_map (fun '(t, p, _, _) => [t; p]) ev ++ [-1]
+          ++ flat_map (fun '(k, i, tg, lw) => [k; i; tg; lw]) calls ++ [-1; b2z (s_dirty st')] ++ obs_state st' n)
   | TObs => (st, obs_state st n)
   end.
 
